@@ -33,7 +33,7 @@ ASSUMPTIONS = [
     'ODiMO / NE16 / DIANA are driven only at the precisions they declare',
 ]
 REQUIRED_MONITORS = ['c12.evaluates', 'c12.independence', 'c12.gradients', 'c12.monotone',
-                     'c12.fully_open', 'c12.odimo']
+                     'c12.fully_open', 'c12.odimo', 'c12.spec_form']
 MIN_NONTRIVIAL = {'quick': 150, 'thorough': 2500}
 EXHAUSTIVE = {'quick': False, 'thorough': False}
 
@@ -56,7 +56,9 @@ def cases(tier, seed):
     for i in range(60 if tier == 'quick' else 900):
         cs.append({'kind': 'sn', 'net_seed': seed * 1000003 + 92000 + i,
                    'spec': ['params', 'ops', 'params_no_bias', 'ops_no_bias'][i % 4],
-                   'mode': ['soft', 'hard', 'gumbel'][(i // 4) % 3], 'seed': seed * 37 + i})
+                   'mode': ['soft', 'hard', 'gumbel'][(i // 4) % 3], 'seed': seed * 37 + i,
+                   # the metric is one entry of a dictionary specification, queried after another
+                   'dictspec': (i // 12) % 2 == 1})
     for i in range(24 if tier == 'quick' else 300):
         cs.append({'kind': 'odimo', 'prog_seed': seed * 1000003 + 93000 + i, 'seed': seed * 41 + i})
     return cs
@@ -355,34 +357,72 @@ def run_sn(case, ctx):
     desc = snlib.gen_sn_desc(rng, max_branches=4)
     desc['gumbel'] = case['mode'] == 'gumbel'
     desc['hard'] = case['mode'] == 'hard'
+    names = ['params', 'ops', 'params_no_bias', 'ops_no_bias']
+    dict_mode = bool(case.get('dictspec'))
+    if dict_mode:
+        rng.shuffle(names)
+        spec = {nm: getattr(pc, nm) for nm in names}
+    else:
+        spec = getattr(pc, case['spec'])
     try:
-        model, sn = snlib.convert_sn(desc, case['seed'], cost=getattr(pc, case['spec']))
+        model, sn = snlib.convert_sn(desc, case['seed'], cost=spec)
     except Exception as e:
         ctx.skip(type(e).__name__ + ': ' + str(e)[:80])
         return
     sn.train()
+    alphas = {}
     for n, c in snlib.combiners(sn):
+        alphas[n] = torch.tensor([rng.uniform(-2, 2) for _ in range(c.alpha.numel())])
         with torch.no_grad():
-            c.alpha.data.copy_(torch.tensor([rng.uniform(-2, 2) for _ in range(c.alpha.numel())]))
+            c.alpha.data.copy_(alphas[n])
     x = snlib.sn_input(desc, case['seed'], 2)
-    detail = {'spec': case['spec'], 'mode': case['mode'],
+    detail = {'spec': case['spec'], 'mode': case['mode'], 'dict': dict_mode,
               'blocks': [[b['kind'] for b in st['branches']] for st in snlib.sn_blocks(desc)]}
+
+    def cost_of():
+        if dict_mode:
+            return sn.get_cost(case['spec'])
+        return sn.cost
 
     def fresh_cost():
         torch.manual_seed(case['seed'])      # same Gumbel noise for base and perturbed evaluation
         sn(x)
-        return sn.cost
+        return cost_of()
+    if dict_mode:
+        # another metric of the dictionary is evaluated first
+        torch.manual_seed(case['seed'])
+        sn(x)
+        sn.get_cost(next(nm for nm in names if nm != case['spec']))
+        # the value of a metric is a function of the architectural parameters alone: the same
+        # network with the same coefficients and that metric as its only specification agrees
+        try:
+            _, twin = snlib.convert_sn(desc, case['seed'], cost=getattr(pc, case['spec']))
+            twin.train()
+            for n, c in snlib.combiners(twin):
+                with torch.no_grad():
+                    c.alpha.data.copy_(alphas[n])
+            torch.manual_seed(case['seed'])
+            twin(x)
+            want = float(twin.cost)
+            got = float(fresh_cost())
+            ctx.mon('c12.spec_form')
+            if abs(got - want) > 1e-6 * max(1.0, abs(want)):
+                ctx.violation('spec-form', dict(detail, sig='sn:' + case['spec'],
+                                                as_dictionary_entry=got, as_only_spec=want,
+                                                dictionary_order=names))
+        except Exception as e:
+            ctx.error('sn twin: ' + repr(e)[:200])
     fresh_cost()
-    vals = check_basic(ctx, sn, [None], lambda nm: sn.cost, 'sn:' + case['mode'], detail)
+    vals = check_basic(ctx, sn, [None], lambda nm: cost_of(), 'sn:' + case['mode'], detail)
     if not vals:
         return
     before = float(vals[None])
     saved = {id(p): p.detach().clone() for p in sn.parameters()}
     noise_weights(sn)
     ctx.mon('c12.independence')
-    if float(sn.cost) != before:
+    if float(cost_of()) != before:
         ctx.violation('independence', dict(detail, sig='sn:' + case['spec'], before=before,
-                                           after=float(sn.cost)))
+                                           after=float(cost_of())))
     with torch.no_grad():
         for p in sn.parameters():
             p.data.copy_(saved[id(p)])
